@@ -276,7 +276,40 @@ class Engine(object):
                             ok = True
                         else:
                             m = self.last_model()      # model of pc && !ok (taken before anything else touches the solver)
+                            okz = ok.z
                             ok = False
+                            # Refinement for uninterpreted kernels (floordiv, pow, median, ...): the solver may pick an interpretation of
+                            # the kernel that the real function does not have.  If the obligation HOLDS at the model's inputs once the
+                            # kernel applications are evaluated with their real semantics, that point is settled by direct evaluation;
+                            # it is excluded and the query repeated (bounded).  unsat after exclusions: the obligation holds at the
+                            # excluded points by evaluation and everywhere else for every interpretation of the kernels.
+                            tries = 0
+                            while self.uf_registry and _has_uf(okz, self) and tries < 12:
+                                tries += 1
+                                try:
+                                    holds_really = bool(eval_term(okz, m, self))
+                                except Exception:
+                                    break
+                                if not holds_really:
+                                    break
+                                block = []
+                                for _n, _sym in self.decls:
+                                    zz = getattr(_sym, 'z', None)
+                                    if zz is not None:
+                                        block.append(zz != m.eval(zz, model_completion=True))
+                                if not block:
+                                    break
+                                self.s.add(z3.Or(*block))
+                                self.stats['uf_refinements'] = self.stats.get('uf_refinements', 0) + 1
+                                r = self._check_obligation(okz)
+                                if r == z3.unsat:
+                                    ok = True
+                                    break
+                                if r == z3.unknown:
+                                    res['status'] = 'inconclusive'
+                                    res['abort_reasons'].append('unknown on obligation (after kernel refinement)')
+                                    return res
+                                m = self.last_model()
                     elif not ok:
                         r = self.check()
                         if r != z3.sat:
